@@ -574,7 +574,9 @@ def _n27_filterloop(func):
             elif isinstance(P, ast.Lambda) and len(P.args.args) == 1 and not (P.args.defaults or P.args.vararg or P.args.kwarg
                                                                              or P.args.kwonlyargs or P.args.posonlyargs):
                 cond = _Subst({P.args.args[0].arg: ast.Name(id=x, ctx=ast.Load())}).visit(copy.deepcopy(P.body))
-            elif isinstance(P, ast.Name) and len(local_defs.get(P.id, ())) == 1:
+            elif isinstance(P, ast.Name) and len(local_defs.get(P.id, ())) == 1 and not any(
+                    (isinstance(y, ast.Name) and y.id == P.id and not isinstance(y.ctx, ast.Load)) or
+                    (isinstance(y, ast.arg) and y.arg == P.id) for y in ast.walk(func)):
                 dl, d = local_defs[P.id][0]
                 body = [b for b in d.body if not (isinstance(b, ast.Expr) and isinstance(b.value, ast.Constant))]
                 a = d.args
